@@ -292,9 +292,9 @@ class Gen:
         if cur is not None and cur["t"] == "A" and cur["e"] and all(x["t"] == "O" and any(m["k"] == U("year") for m in x["m"]) for x in cur["e"]) and self.r.random() < 0.7:
             group = U("year")
         elif cur is not None and self.r.random() < 0.35 and not setp["loop"]:      # (a set below a loop variable differs per iteration: its kinds are not known here)
-            # numbers of ONE kind only: the engine orders values of different kinds - also naturals, negative integers and reals - by kind
-            # first (recorded finding `sort-orders-number-kinds`; C02.py has a family of its own for it)
-            homog = cur["t"] == "O" or (cur["e"] and ((all(x["t"] == "N" for x in cur["e"]) and len(set(x["k"] for x in cur["e"])) == 1) or all(x["t"] == "S" for x in cur["e"])))
+            # numbers (of any mix of kinds: they compare by value) or strings; a set of mixed non-number kinds is ordered by kind first,
+            # which the documentation does not describe
+            homog = cur["t"] == "O" or (cur["e"] and (all(x["t"] == "N" for x in cur["e"]) or all(x["t"] == "S" for x in cur["e"])))
             if homog:
                 sort = self.r.choice([1, 2])
         if group and self.r.random() < 0.5:
